@@ -40,5 +40,5 @@ esac
 export JPV_CLI5="$WORK/bin/json-patch-v5" JPV_CLILEGACY="$WORK/bin/json-patch-legacy" JPV_STRACE="$(command -v strace || true)"
 
 "$WORK/bin/jpverif" run -prop "$PROP" -tier "$TIER" -seed "$SEED" -workers "$WORKERS" -dir "$WORK/run" \
-  -evidence "$VERIF_DIR/evidence/$PROP.json" -replays "$VERIF_DIR/replays" -findings "$VERIF_DIR/known_findings.jsonl" "${EXTRA[@]}"
+  -evidence "${VERIF_EVIDENCE_DIR:-$VERIF_DIR/evidence}/$PROP.json" -replays "${VERIF_REPLAY_DIR:-$VERIF_DIR/replays}" -findings "$VERIF_DIR/known_findings.jsonl" "${EXTRA[@]}"
 exit $?
